@@ -298,6 +298,19 @@ impl Run {
         inner.violations_by_sig.insert(signature.to_string(), (1, path.display().to_string()));
     }
 
+    /// Is `signature` a listed (status known) finding of ANOTHER property? Used by checks which re-judge whole
+    /// solutions (C07, C15): a defect already listed under C01-C03 is reported as KNOWN-FINDING, not as a new violation.
+    pub fn known_for(&self, prop: &str, signature: &str) -> Option<String> {
+        self.findings.iter().find(|f| f.property == prop && f.status == "known" && f.signature == signature).map(|f| f.what.clone())
+    }
+
+    /// Counts a hit of a finding listed under another property.
+    pub fn known_hit(&self, signature: &str, what: &str) {
+        let mut inner = self.inner.lock().unwrap();
+        let e = inner.known_hits.entry(signature.to_string()).or_insert((0, what.to_string()));
+        e.0 += 1;
+    }
+
     pub fn violation_count(&self) -> u64 {
         self.inner.lock().unwrap().violations_by_sig.values().map(|v| v.0).sum()
     }
